@@ -758,6 +758,21 @@ class R:
         CTX.hyp[key(v)] = (1 / rho, s / rho, v)
         return R.of(v)
 
+    def arccosh(s):
+        rho = (s * s - 1).sqrt()
+        CTX.n += 1
+        v = z3.Real(f"val_acosh{CTX.n}")
+        CTX.hyp[key(v)] = (s, rho, v)
+        CTX.cons.append(v >= 0)
+        return R.of(v)
+
+    def arcsinh(s):
+        rho = (s * s + 1).sqrt()
+        CTX.n += 1
+        v = z3.Real(f"val_asinh{CTX.n}")
+        CTX.hyp[key(v)] = (rho, s, v)
+        return R.of(v)
+
     @staticmethod
     def hangle(name):
         v = z3.Real(f"val_{name}")
